@@ -76,13 +76,27 @@ PRES = {
     "preemph_abs": ["preemph", "verif_abs"],     # kaldi tool only: makes the order observable
     "abs_preemph": ["verif_abs", "preemph"],     # thorough, kaldi tool only
 }
+POST_ITEMS = {
+    # item -> (alias used in the tool's configuration, keyword arguments)
+    "deltas": ("deltas", {"num_deltas": 2}),
+    "stack": ("stack", {"num_vectors": 2}),
+    "standardize": ("standardize", {}),
+    "deltas1": ("deltas", {"num_deltas": 1, "context_window": 1}),
+    "stack3e": ("stack", {"num_vectors": 3, "pad_mode": "edge"}),
+    "cmvn_novar": ("cmvn", {"norm_var": False}),
+}
 POSTS = {
     "none": [],
     "deltas": ["deltas"],
     "stack": ["stack"],
     "deltas_stack": ["deltas", "stack"],
     "standardize": ["standardize"],
-    "stack_deltas": ["stack", "deltas"],          # thorough
+    # thorough
+    "stack_deltas": ["stack", "deltas"],
+    "deltas1": ["deltas1"],
+    "stack3e": ["stack3e"],
+    "cmvn_novar": ["cmvn_novar"],
+    "deltas_cmvn": ["deltas", "cmvn_novar"],
 }
 SYNTAXES = ("inline", "json_file", "yaml_file")
 TORCH_CONTAINERS = ("npy", "wav", "pt", "npz", "hdf5", "sph")
@@ -122,9 +136,11 @@ def pre_json(spec):
 
 
 def post_json(spec):
-    m = {"deltas": {"name": "deltas", "num_deltas": 2}, "stack": {"name": "stack", "num_vectors": 2},
-         "standardize": "standardize"}
-    return [m[p] for p in spec]
+    out = []
+    for p in spec:
+        alias, kw = POST_ITEMS[p]
+        out.append(dict(kw, name=alias) if kw else alias)
+    return out
 
 
 _CUSTOM = {}
@@ -140,7 +156,9 @@ def _ensure_custom():
             aliases = {"verif_abs"}
 
             def apply(self, signal, axis=None, in_place=False):
-                return np.abs(signal) - 0.25 * signal
+                # non-linear, and not channel-wise: a user pre-processor may rely on the documented
+                # "applied to 1D signals only" (axis 0 is time for the selected channel)
+                return np.abs(signal) - 0.25 * signal + 0.125 * np.roll(signal, 1, axis=0)
 
         _CUSTOM["abs"] = VerifAbs
     return _CUSTOM["abs"]
@@ -163,9 +181,9 @@ def make_pres(spec):
 def make_posts(spec):
     from pydrobert.speech import post
 
-    m = {"deltas": lambda: post.Deltas(2), "stack": lambda: post.Stack(2),
-         "standardize": lambda: post.Standardize()}
-    return [m[p]() for p in spec]
+    classes = {"deltas": post.Deltas, "stack": post.Stack, "standardize": post.Standardize,
+               "cmvn": post.Standardize}
+    return [classes[POST_ITEMS[p][0]](**POST_ITEMS[p][1]) for p in spec]
 
 
 # ------------------------------------------------------------------ YAML / syntax
@@ -702,7 +720,7 @@ def subchecks(tier, seed, only=None):
     kpres = pres + ["preemph_abs"]
     if not quick:
         comps += ["stft_tri_causal", "si_gammatone_c", "stft_fbank_e"]
-        posts += ["stack_deltas"]
+        posts += ["stack_deltas", "deltas1", "stack3e", "cmvn_novar", "deltas_cmvn"]
         kpres += ["abs_preemph"]
     pts = []
     for comp_name in ["none"] + comps:
